@@ -283,7 +283,18 @@ func JoinQuery(rt *rapid.T, db *model.DB, misaddress bool) Select {
 		var conj []model.Cmp
 		for k := 0; k < ncmp; k++ {
 			var l model.Operand
-			if len(avail) > 0 {
+			padEq := false
+			if len(avail) < len(sides) && rapid.IntRange(0, 2).Draw(rt, "onpadded") == 0 {
+				// equality against a column of a NULL-padded table: never true for the padded rows
+				var padded []side
+				for _, s := range sides {
+					if s.padded {
+						padded = append(padded, s)
+					}
+				}
+				l, _ = colOf(padded[rapid.IntRange(0, len(padded)-1).Draw(rt, "onpl")], "onlcol", true)
+				padEq = true
+			} else if len(avail) > 0 {
 				l, _ = colOf(avail[rapid.IntRange(0, len(avail)-1).Draw(rt, "onl")], "onlcol", true)
 			} else {
 				l, _ = colOf(r, "onlcol", true)
@@ -296,6 +307,12 @@ func JoinQuery(rt *rapid.T, db *model.DB, misaddress bool) Select {
 				rr, _ = colOf(r, "onrcol", true)
 			}
 			op := rapid.SampledFrom([]string{"=", "=", "=", "=", "<", "!=", ">="}).Draw(rt, "onop")
+			if padEq {
+				op = "="
+				if rr.Lit != nil {
+					rr, _ = colOf(r, "onrcol2", true)
+				}
+			}
 			if rapid.Bool().Draw(rt, "onswap") {
 				l, rr = rr, l
 				op = flipOp(op)
@@ -419,8 +436,11 @@ func AggTables(rt *rapid.T) []model.Stmt {
 	nrows := rapid.SampledFrom([]int{0, 1, 2, 3, 4, 5, 8, 12, 20, 40, 60}).Draw(rt, "nrows")
 	big := rapid.Bool().Draw(rt, "bigvals")
 	for i := 0; i < nrows; i++ {
-		row := []model.Val{
-			model.Int(rapid.SampledFrom([]int64{1, 2, 3, 12, 23, 123}).Draw(rt, "g1")),
+		row := []model.Val{}
+		if rapid.IntRange(0, 7).Draw(rt, "g1null") == 0 {
+			row = append(row, model.Null()) // also the first column of the table may hold NULL
+		} else {
+			row = append(row, model.Int(rapid.SampledFrom([]int64{1, 2, 3, 12, 23, 123}).Draw(rt, "g1")))
 		}
 		// grouping strings that collide when printed bare, joined or comma-separated; NULL next to "<nil>"
 		if rapid.IntRange(0, 5).Draw(rt, "g2null") == 0 {
@@ -506,7 +526,7 @@ func AggQuery(rt *rapid.T, db *model.DB) Select {
 		case "count*":
 			it.Kind = "count"
 		case "countcol":
-			c := colRef(rapid.SampledFrom([]string{"n", "g2", "v"}).Draw(rt, "ccol"))
+			c := colRef(rapid.SampledFrom([]string{"n", "g2", "v", "g1", "g1", "g3"}).Draw(rt, "ccol"))
 			it.Kind, it.Col = "count", &c
 		default:
 			c := colRef(rapid.SampledFrom([]string{"v", "w", "v"}).Draw(rt, "acol"))
@@ -545,7 +565,7 @@ func AggQuery(rt *rapid.T, db *model.DB) Select {
 	}
 	if rapid.IntRange(0, 2).Draw(rt, "haswhere") == 0 {
 		v := model.Int(int64(rapid.SampledFrom([]int{0, 1, 2, 3, 12, 999999}).Draw(rt, "wv")))
-		q.Where = &model.Cond{Or: [][]model.Cmp{{{L: model.Operand{Qual: ref.ID(), Col: rapid.SampledFrom([]string{"g1", "v"}).Draw(rt, "wcol")},
+		q.Where = &model.Cond{Or: [][]model.Cmp{{{L: model.Operand{Qual: ref.ID(), Col: rapid.SampledFrom([]string{"v", "w"}).Draw(rt, "wcol")},
 			Op: rapid.SampledFrom([]string{"=", "!=", "<", ">="}).Draw(rt, "wop"), R: model.Operand{Lit: &v}}}}}
 	}
 	return q
